@@ -43,7 +43,12 @@ const (
 	nOps
 )
 
-var meNames = []string{"default", "read", "write"}
+// The empty string is a legal MultiEndpoint name, distinct from a context that
+// names no MultiEndpoint at all (noName, harness-side only).
+var meNames = []string{"default", "read", "write", ""}
+
+const noName = "\x00no-name"
+
 var epNames = []string{"e0:443", "e1:443", "e2:443", "e3:443", "e4:443"}
 
 type MESpec struct {
@@ -79,6 +84,10 @@ type Plan struct {
 	Concurrent bool     `json:"concurrent"`
 	Strategy   int      `json:"strategy"`
 	Ops        []Op     `json:"ops"`
+	// Verbose: gRPC log verbosity 99 for this run; OldCtor: constructed through
+	// the deprecated NewGcpMultiEndpoint alias
+	Verbose bool `json:"verbose,omitempty"`
+	OldCtor bool `json:"old_ctor,omitempty"`
 }
 
 //go:norace
@@ -94,6 +103,9 @@ func genOpts(r *rand.Rand, faults bool, timed bool) OptsSpec {
 	o := OptsSpec{}
 	n := 1 + r.IntN(3)
 	names := r.Perm(3)[:n]
+	if r.IntN(5) == 0 {
+		names[r.IntN(n)] = 3 // a MultiEndpoint whose name is the empty string
+	}
 	sort.Ints(names)
 	for _, nm := range names {
 		k := 1 + r.IntN(4)
@@ -120,7 +132,7 @@ func genOpts(r *rand.Rand, faults bool, timed bool) OptsSpec {
 
 //go:norace
 func Generate(r *rand.Rand, profile string, concurrent bool, avoid map[string]bool) *Plan {
-	p := &Plan{Profile: profile, Concurrent: concurrent}
+	p := &Plan{Profile: profile, Concurrent: concurrent, Verbose: r.IntN(8) == 0, OldCtor: r.IntN(6) == 0}
 	bad := profile == "gmebad"
 	p.Init = genOpts(r, bad && r.IntN(4) == 0, true)
 	if concurrent {
@@ -148,7 +160,7 @@ func Generate(r *rand.Rand, profile string, concurrent bool, avoid map[string]bo
 			o.B = r.IntN(4)
 		case x < 85:
 			o.K = OpRPC
-			o.A = r.IntN(5) // context name: 0 none, 1..3 names, 4 unknown
+			o.A = r.IntN(6) // context name: 0 none, 1..3 names, 4 unknown, 5 the empty name
 			o.B = r.IntN(2) // unary / stream
 		case x < 93:
 			o.K = OpAdvance
@@ -214,7 +226,10 @@ type rpcInfo struct{ lower, ti int }
 func (p *fakePool) record(ctx context.Context) {
 	p.s.k.Yield("pool:rpc")
 	p.rpcs++
-	name, _ := grpcgcp.FromMEContext(ctx)
+	name, named := grpcgcp.FromMEContext(ctx)
+	if !named {
+		name = noName
+	}
 	rec := rpcRec{pool: p, name: name, wasClosed: p.closed > 0, seq: len(p.s.rpcs)}
 	if ri, ok := ctx.Value(lowKey{}).(rpcInfo); ok {
 		p.s.seq++
@@ -391,7 +406,7 @@ func (s *sim) buildOpts(o OptsSpec) *grpcgcp.GCPMultiEndpointOptions {
 	mo := &grpcgcp.GCPMultiEndpointOptions{
 		GRPCgcpConfig:  s.cfg,
 		MultiEndpoints: map[string]*multiendpoint.MultiEndpointOptions{},
-		Default:        meNames[o.Default%3],
+		Default:        meNames[o.Default%4],
 		DialFunc:       s.dial,
 	}
 	for i, me := range o.MEs {
@@ -402,7 +417,7 @@ func (s *sim) buildOpts(o OptsSpec) *grpcgcp.GCPMultiEndpointOptions {
 		if o.EmptyME == i+1 {
 			eps = []string{}
 		}
-		mo.MultiEndpoints[meNames[me.Name%3]] = &multiendpoint.MultiEndpointOptions{
+		mo.MultiEndpoints[meNames[me.Name%4]] = &multiendpoint.MultiEndpointOptions{
 			Endpoints: eps, RecoveryTimeout: time.Duration(me.RMs) * time.Millisecond, SwitchingDelay: time.Duration(me.DMs) * time.Millisecond}
 	}
 	if o.BadDef {
@@ -476,6 +491,11 @@ type callRec struct {
 //go:norace
 func Run(t *testing.T, plan *Plan, src *simkit.Source, logOn bool) *simkit.Result {
 	res := &simkit.Result{}
+	simkit.SetVerbose(plan.Verbose)
+	defer simkit.SetVerbose(false)
+	if plan.Verbose {
+		res.Count("fault:verbose_logging", 1)
+	}
 	h := simkit.Bubble(t, func() {
 		s := &sim{plan: plan, res: res, mes: map[string]MESpec{}}
 		s.run(src, logOn)
@@ -540,7 +560,13 @@ func (s *sim) run(src *simkit.Source, logOn bool) {
 	init := s.plan.Init
 	s.dialN, s.dialFail = 0, init.DialFail
 	var err error
-	c := s.call("New", 1, func() { s.gme, err = grpcgcp.NewGCPMultiEndpoint(s.buildOpts(init)) })
+	c := s.call("New", 1, func() {
+		if s.plan.OldCtor {
+			s.gme, err = grpcgcp.NewGcpMultiEndpoint(s.buildOpts(init))
+		} else {
+			s.gme, err = grpcgcp.NewGCPMultiEndpoint(s.buildOpts(init))
+		}
+	})
 	k.Quiesce()
 	s.scribbleOpts()
 	s.kernelFailure()
@@ -601,7 +627,7 @@ func (s *sim) kindOf(o OptsSpec) string {
 func (s *sim) accept(o OptsSpec) {
 	s.mes = map[string]MESpec{}
 	for _, me := range o.MEs {
-		nm := meNames[me.Name%3]
+		nm := meNames[me.Name%4]
 		if old, ok := s.prevME[nm]; ok {
 			// an existing MultiEndpoint keeps its timeouts; only endpoints change
 			me.RMs, me.DMs = old.RMs, old.DMs
@@ -612,7 +638,7 @@ func (s *sim) accept(o OptsSpec) {
 	for k, v := range s.mes {
 		s.prevME[k] = v
 	}
-	s.def = meNames[o.Default%3]
+	s.def = meNames[o.Default%4]
 	h := &cfgRec{mes: map[string]MESpec{}, def: s.def}
 	for k, v := range s.mes {
 		h.mes[k] = v
@@ -713,7 +739,7 @@ func (s *sim) endpointsOf(me MESpec) []string {
 //go:norace
 func (s *sim) probe(name string, stream bool) (*fakePool, bool) {
 	ctx := context.Background()
-	if name != "" {
+	if name != noName {
 		ctx = grpcgcp.NewMEContext(ctx, name)
 	}
 	n0 := len(s.rpcs)
@@ -765,7 +791,7 @@ func (s *sim) probe(name string, stream bool) (*fakePool, bool) {
 //go:norace
 func (s *sim) judge(name string, p *fakePool, when string, exact bool) {
 	sel := name
-	if _, ok := s.mes[sel]; !ok || name == "" {
+	if _, ok := s.mes[sel]; !ok || name == noName {
 		sel = s.def
 	}
 	me := s.mes[sel]
@@ -801,7 +827,7 @@ func (s *sim) routingSnapshot() (map[string]string, bool) {
 	snap := map[string]string{}
 	// every name of the universe, configured or not: a rejected update must not
 	// have added a MultiEndpoint either
-	names := append([]string{"", "unknown"}, meNames...)
+	names := append([]string{noName, "unknown"}, meNames...)
 	sort.Strings(names)
 	for _, n := range names {
 		p, ok := s.probe(n, false)
@@ -859,7 +885,7 @@ func (s *sim) afterUpdate(when string) {
 	}
 	// every MultiEndpoint already reflects the connectivity of the kept pools
 	// (before any monitor ran): judged by real RPCs
-	names := []string{""}
+	names := []string{noName}
 	for n := range s.mes {
 		names = append(names, n)
 	}
@@ -1026,7 +1052,7 @@ func (s *sim) exec(o Op) {
 			// "every MultiEndpoint already reflects the connectivity of the kept
 			// pools when the call returns": real RPCs, nothing else released
 			s.solo = true
-			names := []string{"", "unknown"}
+			names := []string{noName, "unknown"}
 			for n := range s.mes {
 				names = append(names, n)
 			}
@@ -1073,19 +1099,21 @@ func (s *sim) exec(o Op) {
 		p.setState(st)
 		s.settle(o)
 	case OpRPC:
-		name := ""
+		name := noName
 		switch o.A {
 		case 1, 2, 3:
 			name = meNames[o.A-1]
 		case 4:
 			name = "unknown"
 			s.res.Count("fault:unknown_multiendpoint_name", 1)
+		case 5:
+			name = "" // explicitly names the MultiEndpoint called ""
 		}
 		s.res.Count("op:rpc", 1)
 		if s.plan.Concurrent {
 			s.seq++
 			ctx := context.WithValue(context.Background(), lowKey{}, rpcInfo{lower: s.updDone, ti: s.seq})
-			if name != "" {
+			if name != noName {
 				ctx = grpcgcp.NewMEContext(ctx, name)
 			}
 			s.concCalls = append(s.concCalls, s.call("rpc", 0, func() { _ = s.gme.Invoke(ctx, "/svc/M", nil, nil) }))
@@ -1201,7 +1229,7 @@ func (s *sim) heal() {
 	if s.stop {
 		return
 	}
-	names := []string{"", "unknown"}
+	names := []string{noName, "unknown"}
 	for n := range s.mes {
 		names = append(names, n)
 	}
@@ -1217,7 +1245,7 @@ func (s *sim) heal() {
 		s.judge(n, p, "after faults stopped", false)
 		// convergence also for MultiEndpoints with timeouts
 		sel := n
-		if _, ok := s.mes[sel]; !ok || n == "" {
+		if _, ok := s.mes[sel]; !ok || n == noName {
 			sel = s.def
 		}
 		me := s.mes[sel]
